@@ -507,6 +507,27 @@ func (fe *FuncEnc) matchLoops(fn *ssa.Function, con *Contract, ci *cfgInfo) map[
 	return out
 }
 
+// globalMapWrite: a table held in a package-level variable (the reserved names, the keywords) is written only by the
+// package initializer.  Writing it anywhere else is package-level state that survives from one run to the next (C20, C13)
+// and voids the invariant other functions assume about it.
+func (fe *FuncEnc) globalMapWrite(f *Frame, m ssa.Value, path Term, pos token.Pos) {
+	u, ok := m.(*ssa.UnOp)
+	if !ok {
+		return
+	}
+	g, ok := u.X.(*ssa.Global)
+	if !ok || g.Pkg == nil || f.fn.Name() == "init" {
+		return
+	}
+	n0 := len(fe.obls)
+	fe.checkOnly = true
+	fe.emit("frame.globalmap", g.Name(), path, tBool(false), "the table in package variable "+g.Name()+" is written only by the package initializer", pos)
+	fe.checkOnly = false
+	for _, o := range fe.obls[n0:] {
+		o.Props = append(append([]string{}, fe.props...), "C20", "C13", "C08")
+	}
+}
+
 // entryFor: the state `old(...)` refers to in loop clauses of frame f (the lending frame's entry for borrowed clauses).
 func (fe *FuncEnc) entryFor(f *Frame) *State {
 	if f.borrow != nil && fe.eng.contracts[fe.eng.fnames[f.fn]] == nil {
@@ -884,6 +905,7 @@ func (fe *FuncEnc) step(f *Frame, in ssa.Instruction, st *State, path Term) {
 		k := fe.val(x.Key)
 		v := fe.valAs(x.Value, mt.Elem())
 		fe.emit("safety.nilmap", fe.srcLabel(x.Pos(), "assign"), path, tNot(tEq(m, tInt(0))), "assignment to entry in nil map", x.Pos())
+		fe.globalMapWrite(f, x.Map, path, x.Pos())
 		fe.mapCellCheck(f, mt, m, k, v, st, path, x.Pos())
 		fe.mapStore(st, mt, m, k, v)
 	case *ssa.Lookup:
